@@ -54,15 +54,7 @@ func (C07) Gen(r *simrt.RNG, tier string) core.Case {
 	w.Parties = append(w.Parties, t)
 	var args []int
 	addArg := func(a world.ArgSpec) { w.Args = append(w.Args, a); args = append(args, len(w.Args)-1) }
-	spell := func(s string) string {
-		b := []byte(s)
-		for i := range b {
-			if r.Chance(1, 3) {
-				b[i] -= 32
-			}
-		}
-		return string(b)
-	}
+	spell := func(s string) string { return world.RandomCase(r, s) }
 	convForm := func() (int, int) {
 		switch r.Intn(5) {
 		case 0:
@@ -97,7 +89,7 @@ func (C07) Gen(r *simrt.RNG, tier string) core.Case {
 			w.Parties[0].In = append(w.Parties[0].In, world.Slot{Label: world.Label{Name: names[i], Type: T1}, Spell: r.Intn(3)})
 		}
 		inF, outF := convForm()
-		c := world.Party{InForm: inF, OutForm: outF, In: []world.Slot{{Label: world.Label{Type: T0}}}, Out: []world.Slot{{Label: world.Label{Type: T1}}}, HasErr: inF == world.FormBuilt || r.Bool()}
+		c := world.Party{InForm: inF, OutForm: outF, In: []world.Slot{{Label: world.Label{Type: T0}, Spell: r.Intn(12)}}, Out: []world.Slot{{Label: world.Label{Type: T1}}}, HasErr: inF == world.FormBuilt || r.Bool()}
 		// further inputs of the converter, given directly by name ("flags")
 		if inF != world.FormPositional && r.Chance(1, 3) {
 			nf := 1 + r.Intn(2)
@@ -133,7 +125,7 @@ func (C07) Gen(r *simrt.RNG, tier string) core.Case {
 			c1.InForm, c1.OutForm, c1.HasErr = world.FormBuilt, world.FormBuilt, true
 		}
 		inF, outF := convForm()
-		c2 := world.Party{InForm: inF, OutForm: outF, In: []world.Slot{{Label: world.Label{Type: T0}}}, Out: []world.Slot{{Label: world.Label{Type: T1}}}, HasErr: inF == world.FormBuilt || r.Bool()}
+		c2 := world.Party{InForm: inF, OutForm: outF, In: []world.Slot{{Label: world.Label{Type: T0}, Spell: r.Intn(12)}}, Out: []world.Slot{{Label: world.Label{Type: T1}}}, HasErr: inF == world.FormBuilt || r.Bool()}
 		// further inputs given directly by name ("flags") on either converter
 		for ci, cc := range []*world.Party{&c1, &c2} {
 			if cc.InForm != world.FormPositional && cc.InForm != world.FormBuilt && r.Chance(1, 4) {
